@@ -328,6 +328,31 @@ def run(project, chk):
                               message=f"to_console receives `{var}` as defined at line(s) {[kcfg.nodes[d].lineno if d >= 0 else 0 for d in bad]} although a hex rendering was computed after that definition: the preview is painted with the raw return value (an hsl() string makes rich raise ColorParseError, so show=True raises where the plain call returns)")
     chk.floor("colour arguments of the console preview", n_prev, 3)
 
+    # ---------------------------------------------------------------- R12: the preview takes the returned value apart only after looking at it
+    chk.rule("R12", "inside the show / save_report region of make_readable a destructuring `a, b, c = x` of a name is dominated by a test of that very name "
+                    "(isinstance(x, tuple)) or sits in a catch-all try: the returned colour is a string for most spellings, and unpacking it raises where the plain call returns")
+    import re as _re
+    from sa.guards import guard_states as _gs12, common_literals as _cl12
+    kG12 = _gs12(kcfg)
+    catch_all = set()
+    for t12 in ast.walk(mk.node):
+        if isinstance(t12, ast.Try) and any(h.type is None or (isinstance(h.type, ast.Name) and h.type.id in ("Exception", "BaseException", "ValueError")) for h in t12.handlers):
+            for b12 in t12.body:
+                catch_all.update(id(x) for x in ast.walk(b12))
+    for knode in kcfg.nodes:
+        x = knode.ast
+        if not (knode.kind == "stmt" and isinstance(x, ast.Assign) and len(x.targets) == 1 and isinstance(x.targets[0], (ast.Tuple, ast.List)) and isinstance(x.value, ast.Name)):
+            continue
+        lits = _cl12(kG12.get(knode.id))
+        if not any(v and t in ("show", "save_report") for t, v in lits):
+            continue
+        name = x.value.id
+        tested = [t for t, v in lits if _re.search(rf"\b{_re.escape(name)}\b", t)]
+        chk.check(bool(tested) or id(x) in catch_all, "R12", mk.short, norm_text(x), project.loc(mk.module, x), f"`{norm_text(x)}` runs only under a test of {name}",
+                  how=f"guards mentioning {name}: {sorted(tested)}",
+                  message=f"`{norm_text(x)}` in the preview is not dominated by any test of {name} (guards: {sorted(t for t, v in lits)[:4]}): for inputs whose formatted result is a string (hex, rgba tuple, names) "
+                          f"the unpack raises ValueError -- show=True raises where the plain call returns")
+
     # ---------------------------------------------------------------- R9: the re-read colour is rendered when (and only when) it is valid
     chk.rule("R9", "make_readable's preview takes the hex rendering of the re-read result on the path where that colour is valid, never on the path where it is not "
                    "(to_hex() of an invalid colour is None; a valid hsl() result left unrendered makes rich raise)")
